@@ -795,6 +795,20 @@ def inline_model(prog, names, fallback=None, depth=0):
     return model
 
 
+def write_out(I, p, node, k, args, val):
+    """Store val through the k-th argument of a call: `&x` in the function under evaluation, or a pointer parameter of an inlined helper
+    that was handed `&x` further up.  False when the argument is neither."""
+    a = strip(node["a"][k])
+    if isinstance(a, dict) and a.get("k") == "un" and a.get("op") == "&":
+        key = lvalue_key(a["e"], I.fn)
+    elif k < len(args) and isinstance(args[k], Ptr) and getattr(args[k], "addr", False) and lvalue_key(a, I.fn):
+        key = "*" + lvalue_key(a, I.fn)
+    else:
+        return False
+    I.write(p, I.canon(p, key), val)
+    return True
+
+
 def unit_helpers(prog, fn, exclude=(), statics_only=True):
     """Names of the file-local (static) functions of fn's unit that fn reaches through direct calls: the helpers a table evaluates
     together with fn, so that moving a loop or a formula into a helper of the same file does not change what the table sees."""
